@@ -3,8 +3,12 @@
 
   Model: `Lumina/Model/Befp.lean` (`validate` = `BadEncodingFraudProof::validate` as it is after the three `fix:`
   commits eb5a49a, 0ccaf23, 93ec7dd; `validateUnfixed` = before).  Spec: `Lumina/Spec/C07.lean`.
-  Parameters: the hash `H` (idealised: `HashOK`), the Reed–Solomon codec `C` (its decoder is assumed to recover a codeword
-  from any half: `RecOK`; for whole honest blocks additionally linear, so that every axis is a codeword: C08).
+  Parameters: the hash `H` — 32-byte output and NO COLLISION AMONG THE BYTE STRINGS ACTUALLY HASHED (`HashOKOn H S` with `S`
+  an explicit finite list: `hashedSound` = the inputs of `Dah.ofEds` for the committed square + the inputs of the
+  verification of this proof's share proofs; `hashedComplete` = the former + the leaves and nodes of the re-encoded axis);
+  each soundness/completeness theorem also has a reduction form "violation ⇒ explicit collision in that list".  The
+  Reed–Solomon codec `C`: its decoder is assumed to recover a codeword from any half (`RecOK`); for whole honest blocks
+  additionally linear, so that every axis is a codeword (C08).
 -/
 import Lumina.Gen.C07
 import Lumina.Proofs.BefpSound
@@ -16,7 +20,7 @@ namespace Lumina.Props.C07
 open Lumina.Util Lumina.Model.Nmt Lumina.Model.Eds Lumina.Model.EdsCode Lumina.Model.Befp
 open Lumina.Model.Decoders (Befp ShareWithProof)
 open Lumina.Proofs.Nmt Lumina.Proofs.EdsCode Lumina.Proofs.EdsExtend Lumina.Proofs.EdsLinear Lumina.Proofs.EdsCodeword
-open Lumina.Proofs.Befp Lumina.Proofs.BefpSound Lumina.Proofs.BefpComplete
+open Lumina.Proofs.Befp Lumina.Proofs.BefpSound Lumina.Proofs.BefpComplete Lumina.Proofs.Eds
 open Lumina.Spec.C07 (specValidate Obs)
 
 theorem consts_eq :
@@ -24,30 +28,52 @@ theorem consts_eq :
     Lumina.Gen.C07.NS_SIZE = 29 ∧ Lumina.Gen.C07.NS_SIZE = Lumina.Model.Nmt.NS_SIZE ∧
     Lumina.Model.Decoders.NMT_LEAF_SIZE = 541 ∧ LEOPARD_ORDER = 256 := by decide
 
+/-- the byte strings hashed by the two computations soundness compares: `DataAvailabilityHeader::from_eds` of the
+    committed square, and the verification of the share proofs of this fraud proof -/
+def hashedSound (H : HashFn) (e : Eds) (p : Befp) : List Bytes := edsInputs H e ++ befpInputs H p.shares
+
+/-- … and, for completeness, additionally the leaves and inner nodes of the tree `validate` rebuilds from the re-encoded axis -/
+def hashedComplete (H : HashFn) (C : Codec) (e : Eds) (p : Befp) : List Bytes :=
+  edsInputs H e ++ encodingInputs H C (e.width / 2) p.index (rebuiltOf p.shares)
+
 /-- **Soundness, per axis.**  The header commits (through `DataAvailabilityHeader::from_eds`) to a square accepted by
     `ExtendedDataSquare::new`.  If the row/column a fraud proof indicates is a Reed–Solomon codeword, the proof does not
     validate — for EVERY proof: any shares, any inclusion proofs, any positions (permuted, duplicated, substituted),
-    any claimed namespaces, any mix of proof axes, any height and index. -/
-theorem befp_sound {H : HashFn} (hk : HashOK H) (C : Codec) {ver : Nat} {X : List Bytes} {e : Eds}
+    any claimed namespaces, any mix of proof axes, any height and index.  Hash hypothesis: no collision among `hashedSound`
+    (satisfiable; see `befp_sound_or_collision` for the reduction form). -/
+theorem befp_sound {H : HashFn} (C : Codec) {ver : Nat} {X : List Bytes} {e : Eds}
     (hnew : edsNew ver X = .ok e) {dah : Dah} (hd : Dah.ofEds H e = .ok dah) (p : Befp) (hwf : BefpWF p) (hh : Nat)
+    (hk : HashOKOn H (fun y => y ∈ hashedSound H e p))
     (hcw : p.index < e.width → IsCodeword C.enc (e.width / 2) (axisData e X p.axis p.index) ∧
       RecOK C (e.width / 2) (axisData e X p.axis p.index)) :
     validate H C p hh dah ≠ .ok () :=
-  validate_rejects_codeword hk C (edsNew_ok hnew) hd p hwf hh hcw
+  validate_rejects_codeword C (edsNew_ok hnew) hd p hwf hh hk hcw
+
+/-- **Soundness, reduction form**: a fraud proof that validates against a codeword axis yields an EXPLICIT collision of
+    the (32-byte-output) hash among the finitely many byte strings of `hashedSound` -/
+theorem befp_sound_or_collision {H : HashFn} (hl : HashLen H) (C : Codec) {ver : Nat} {X : List Bytes} {e : Eds}
+    (hnew : edsNew ver X = .ok e) {dah : Dah} (hd : Dah.ofEds H e = .ok dah) (p : Befp) (hwf : BefpWF p) (hh : Nat)
+    (hcw : p.index < e.width → IsCodeword C.enc (e.width / 2) (axisData e X p.axis p.index) ∧
+      RecOK C (e.width / 2) (axisData e X p.axis p.index))
+    (hok : validate H C p hh dah = .ok ()) :
+    CollisionIn H (fun y => y ∈ hashedSound H e p) := by
+  rcases noCollOn_or_collision H (fun y => y ∈ hashedSound H e p) with h | h
+  · exact (befp_sound C hnew hd p hwf hh ⟨h, hl⟩ hcw hok).elim
+  · exact h
 
 /-- **For an honestly encoded block no fraud proof validates.**  The block is what `from_ods` builds with a linear
     encoder whose decoder recovers codewords (the Reed–Solomon hypotheses of C08): every row and column is a codeword
     (C08 `axes_codewords`), so `befp_sound` applies to whatever axis the proof indicates. -/
-theorem befp_sound_honest_block {H : HashFn} (hk : HashOK H) (C : Codec) {ver : Nat} {ods : List Bytes} {e : Eds}
+theorem befp_sound_honest_block {H : HashFn} (C : Codec) {ver : Nat} {ods : List Bytes} {e : Eds}
     (hs : EncShape C.enc (isqrt ods.length)) (L : EncLinear C.enc (isqrt ods.length) 512)
     (hrec : ∀ cw, IsCodeword C.enc (isqrt ods.length) cw → RecOK C (isqrt ods.length) cw)
     (hf : fromOds C.enc ver ods = .ok e) {dah : Dah} (hd : Dah.ofEds H e = .ok dah)
-    (p : Befp) (hwf : BefpWF p) (hh : Nat) :
+    (p : Befp) (hwf : BefpWF p) (hh : Nat) (hk : HashOKOn H (fun y => y ∈ hashedSound H e p)) :
     validate H C p hh dah ≠ .ok () := by
   have x := extOK hs hf
   have hlen : ∀ s ∈ ods, s.length = 512 := x.ods_size
   generalize isqrt ods.length = k at x hs L hrec
-  apply validate_rejects_codeword hk C x.newOK hd p hwf hh
+  apply validate_rejects_codeword C x.newOK hd p hwf hh hk
   intro hidx
   have hi2 : p.index < 2 * k := by rw [← x.width]; exact hidx
   have hk2 : e.width / 2 = k := by rw [x.width]; omega
@@ -90,8 +116,9 @@ def obsOf : Except BErr Unit → Obs
 
 /-- the soundness half of the spec checker holds of the model's outcome whenever the call does not panic (the
     panic-freedom of the proof verification itself is C16's subject) -/
-theorem befp_spec_sound {H : HashFn} (hk : HashOK H) (C : Codec) {ver : Nat} {X : List Bytes} {e : Eds}
+theorem befp_spec_sound {H : HashFn} (C : Codec) {ver : Nat} {X : List Bytes} {e : Eds}
     (hnew : edsNew ver X = .ok e) {dah : Dah} (hd : Dah.ofEds H e = .ok dah) (p : Befp) (hwf : BefpWF p) (hh : Nat)
+    (hk : HashOKOn H (fun y => y ∈ hashedSound H e p))
     (hidx : p.index < e.width)
     (hcw : Lumina.Spec.C07.isCodeword C.enc (axisData e X p.axis p.index) = true)
     (hrec : RecOK C (e.width / 2) (axisData e X p.axis p.index))
@@ -106,7 +133,7 @@ theorem befp_spec_sound {H : HashFn} (hk : HashOK H) (C : Codec) {ver : Nat} {X 
   have hcw' : IsCodeword C.enc (e.width / 2) (axisData e X p.axis p.index) := by
     simp only [Lumina.Spec.C07.isCodeword, hlen, Bool.and_eq_true, beq_iff_eq] at hcw
     exact ⟨by rw [hlen]; exact hw2.symm, hcw.2⟩
-  have hne := befp_sound hk C hnew hd p hwf hh (fun _ => ⟨hcw', hrec⟩)
+  have hne := befp_sound C hnew hd p hwf hh hk (fun _ => ⟨hcw', hrec⟩)
   simp only [specValidate, hcw, ↓reduceIte, Bool.and_eq_true, bne_iff_ne, ne_eq]
   refine ⟨hnp, ?_⟩
   cases hv : validate H C p hh dah with
@@ -120,11 +147,13 @@ theorem befp_spec_sound {H : HashFn} (hk : HashOK H) (C : Codec) {ver : Nat} {X 
     badly encoded) of width at most 256 (what the codec can re-encode).  If the indicated row/column is NOT a codeword,
     every honest proof validates: the header's height, at least half of that axis' shares, each with the inclusion
     proof `Sample::new` builds for its own position along whichever proof axis — every subset, every proof-axis mix,
-    every axis (upper/lower rows, left/right columns).  Idealised hash; of the codec only shapes are assumed (parity
-    shards not shorter than a namespace, the decoder returns as many shards as it was given). -/
-theorem befp_complete {H : HashFn} (hk : HashOK H) (C : Codec) {ver : Nat} {X : List Bytes} {e : Eds}
+    every axis (upper/lower rows, left/right columns).  Hash: no collision among `hashedComplete` (satisfiable; reduction
+    form: `befp_complete_or_collision`); of the codec only shapes are assumed (parity shards not shorter than a namespace,
+    the decoder returns as many shards as it was given). -/
+theorem befp_complete {H : HashFn} (C : Codec) {ver : Nat} {X : List Bytes} {e : Eds}
     (hnew : edsNew ver X = .ok e) {dah : Dah} (hd : Dah.ofEds H e = .ok dah) (p : Befp) (hh : Nat)
     (hp : HonestProof H e p hh) (hcap : e.width ≤ 256)
+    (hk : HashOKOn H (fun y => y ∈ hashedComplete H C e p))
     (hnc : ¬ IsCodeword C.enc (e.width / 2) (axisData e X p.axis p.index))
     (hencsz : ∀ l, (∀ s ∈ l, 64 ≤ s.length) → ∀ s ∈ C.enc l, NS_SIZE ≤ s.length)
     (hreclen : ∀ l, (C.recon l).length = l.length) :
@@ -134,8 +163,8 @@ theorem befp_complete {H : HashFn} (hk : HashOK H) (C : Codec) {ver : Nat} {X : 
   obtain ⟨hrl, hcl, _, _⟩ := Lumina.Proofs.Eds.dah_ofEds_roots hd
   have hvs := verifyShares_honest hk.hlen hv hd hp.index p.shares 0 (by rw [hp.len]; omega)
     (fun m s hm => by rw [Nat.zero_add]; exact hp.honest m s hm)
-  have hce := checkEncoding_noncodeword hk C hn hd p.axis hp.index (rebuiltOf p.shares)
-    (by simp [rebuiltOf, hp.len]) hnc hencsz hreclen
+  have hce := checkEncoding_noncodeword C hn hd p.axis hp.index (rebuiltOf p.shares)
+    (by simp [rebuiltOf, hp.len]) hk hnc hencsz hreclen
   unfold validate validateWith
   simp only [hrl]
   have c1 : ¬ hh ≠ p.height := by simp [hp.height]
@@ -147,6 +176,20 @@ theorem befp_complete {H : HashFn} (hk : HashOK H) (C : Codec) {ver : Nat} {X : 
   have c7 : (Flags.fixed.capGuard && decide (e.width > LEOPARD_ORDER)) = false := by
     simp [LEOPARD_ORDER]; omega
   simp only [c1, c2, c3, c4, c5, c6, c7, ↓reduceIte, Bool.false_eq_true, hvs, hce]
+
+/-- **Completeness, reduction form**: an honest proof of a non-codeword axis that is NOT accepted yields an explicit
+    collision of the (32-byte-output) hash among the byte strings of `hashedComplete` -/
+theorem befp_complete_or_collision {H : HashFn} (hl : HashLen H) (C : Codec) {ver : Nat} {X : List Bytes} {e : Eds}
+    (hnew : edsNew ver X = .ok e) {dah : Dah} (hd : Dah.ofEds H e = .ok dah) (p : Befp) (hh : Nat)
+    (hp : HonestProof H e p hh) (hcap : e.width ≤ 256)
+    (hnc : ¬ IsCodeword C.enc (e.width / 2) (axisData e X p.axis p.index))
+    (hencsz : ∀ l, (∀ s ∈ l, 64 ≤ s.length) → ∀ s ∈ C.enc l, NS_SIZE ≤ s.length)
+    (hreclen : ∀ l, (C.recon l).length = l.length)
+    (hrej : validate H C p hh dah ≠ .ok ()) :
+    CollisionIn H (fun y => y ∈ hashedComplete H C e p) := by
+  rcases noCollOn_or_collision H (fun y => y ∈ hashedComplete H C e p) with h | h
+  · exact (hrej (befp_complete C hnew hd p hh hp hcap ⟨h, hl⟩ hnc hencsz hreclen)).elim
+  · exact h
 
 /-! ### the defect of the unchanged code, as a concrete witness
 
@@ -178,5 +221,44 @@ set_option maxRecDepth 100000 in
 /-- before the fixes, an honest block (`from_ods`) + the honest proof for its lower row ⇒ `validate = Ok(())`;
     after the fixes the same proof is rejected -/
 theorem befp_unfixed_lower_axis_counterexample : cexWitness = true := by decide +kernel
+
+/-! ### Non-vacuity of `befp_sound`: ALL hypotheses hold on a concrete instance
+
+  the same honest 2 × 2 block, the honest lower-row proof built under grpD's toy hash `toySum` (a 32-byte positional
+  checksum), which has no collision among the byte strings of `hashedSound`; the decoder is the correct one for this codeword -/
+
+open Lumina.Proofs.Sample (toySum toySum_len noCollOn_of_list)
+
+def nvCodec : Codec := ⟨fun l => l, fun _ => [cexShare, cexShare]⟩
+def nvDah : Dah := match Dah.ofEds toySum cexEds with | .ok d => d | .error _ => default
+def nvShareAt (i : Nat) : Option ShareWithProof :=
+  match Lumina.Model.Sample.new toySum cexEds 1 i .row with
+  | .ok s => some ⟨s.share.ns, s.share.data, s.proof, .row⟩
+  | .error _ => none
+def nvProof : Befp := ⟨5, [nvShareAt 0, nvShareAt 1], 1, .row⟩
+
+set_option maxRecDepth 100000 in
+theorem nonvacuity_toySum_nocoll : NoCollOn toySum (fun y => y ∈ hashedSound toySum cexEds nvProof) :=
+  noCollOn_of_list (by decide +kernel)
+
+set_option maxRecDepth 100000 in
+example : validate toySum nvCodec nvProof 5 nvDah ≠ .ok () := by
+  have hnew : edsNew 1 [cexShare, cexShare, cexShare, cexShare] = .ok cexEds := by decide +kernel
+  have hd : Dah.ofEds toySum cexEds = .ok nvDah := by decide +kernel
+  have hwf : BefpWF nvProof := by
+    have h : nvProof.shares.all (fun o => match o with
+        | some s => decide (s.ns.length = NS_SIZE) && s.proof.siblings.all (fun q => decide q.WF)
+        | none => true) = true := by decide +kernel
+    intro s hs
+    have := List.all_eq_true.mp h (some s) hs
+    simp only [Bool.and_eq_true, decide_eq_true_eq, List.all_eq_true] at this
+    exact this
+  refine befp_sound nvCodec hnew hd nvProof hwf 5 ⟨nonvacuity_toySum_nocoll, toySum_len⟩ ?_
+  intro _
+  have haxis : axisData cexEds [cexShare, cexShare, cexShare, cexShare] nvProof.axis nvProof.index = [cexShare, cexShare] := by
+    decide +kernel
+  have hw : cexEds.width / 2 = 1 := rfl
+  rw [haxis, hw]
+  exact ⟨⟨rfl, rfl⟩, fun _ _ _ => rfl⟩
 
 end Lumina.Props.C07
